@@ -511,8 +511,10 @@ _STRF = {"H": "([01][0-9]|2[0-3])", "M": "[0-5][0-9]", "S": "[0-5][0-9]", "d": "
          "z": r"([+-][0-9]{4}(\.[0-9]+)?)?", "%": "%"}          # what strftime writes for each directive
 
 
-def _strftime_dfa(spec):
-    """language of value.strftime(spec) / f"{value:spec}" for the numeric directives"""
+def _strftime_dfa(spec, facts=None):
+    """language of value.strftime(spec) / f"{value:spec}" for the numeric directives; *facts* says what the path
+    conditions established about the fields: {"second" | "microsecond": "nz" (non-zero) | "z" (zero)}"""
+    facts = facts or {}
     out = SL.EPSILON
     i = 0
     while i < len(spec):
@@ -521,7 +523,13 @@ def _strftime_dfa(spec):
             d = spec[i + 1]
             if d not in _STRF:
                 return None
-            out = SL.concat(out, SL.rx(_STRF[d]))
+            L = SL.rx(_STRF[d])
+            field = {"S": "second", "f": "microsecond"}.get(d)
+            if field and facts.get(field) == "nz":
+                L = L - SL.rx("0+")
+            elif field and facts.get(field) == "z":
+                L = L & SL.rx("0+")
+            out = SL.concat(out, L)
             i += 2
         else:
             out = SL.concat(out, SL.lit(ch))
@@ -560,7 +568,7 @@ class _Templates:
                             return None
                         spec = "".join(str(x.value) for x in v.format_spec.values)
                     if spec and "%" in spec:
-                        part = _strftime_dfa(spec)
+                        part = _strftime_dfa(spec, env.get("$facts"))
                     elif spec and _re.fullmatch(r"0?>?0?([0-9]+)d?", spec):
                         # a zero-padded integer field: its width (a value wider than its field is the business of the
                         # range checks that precede it, e.g. the millisecond test of the PDS3 writer)
@@ -575,7 +583,18 @@ class _Templates:
             return d
         if isinstance(e, ast.Call) and isinstance(e.func, ast.Attribute) and e.func.attr == "strftime" and e.args \
                 and isinstance(e.args[0], ast.Constant):
-            return _strftime_dfa(str(e.args[0].value))
+            return _strftime_dfa(str(e.args[0].value), env.get("$facts"))
+        if isinstance(e, ast.Call) and isinstance(e.func, ast.Attribute) and e.func.attr in ("rstrip", "lstrip", "strip") \
+                and len(e.args) == 1 and isinstance(e.args[0], ast.Constant) and isinstance(e.args[0].value, str) and not e.keywords:
+            # the exact image of the language under the strip (a character *set* is stripped, not a suffix)
+            base = self.expr(e.func.value, env, defcls)
+            if base is None:
+                return None
+            if e.func.attr in ("rstrip", "strip"):
+                base = SL.rstrip_image(base, e.args[0].value)
+            if e.func.attr in ("lstrip", "strip"):
+                base = SL.lstrip_image(base, e.args[0].value)
+            return base
         if isinstance(e, ast.Call) and isinstance(e.func, ast.Attribute) and norm(e.func.value) in ("super()", "self") \
                 and e.func.attr.startswith("encode_"):
             after = defcls if norm(e.func.value) == "super()" else None
@@ -588,6 +607,60 @@ class _Templates:
 
     def run(self, fn, defcls):
         yield from self.block(list(fn.body), {}, defcls)
+
+    @staticmethod
+    def field_facts(test, facts):
+        """[(facts when the test holds | None if it cannot, facts when it fails | None)] -- the test is read only as far
+        as it is the truth of <value>.second / <value>.microsecond, `not`, and `or` / `and` of those; anything else
+        leaves the facts as they are on both sides"""
+        def field_of(t):
+            if isinstance(t, ast.Attribute) and t.attr in ("second", "microsecond"):
+                return t.attr
+            return None
+
+        def ev(t, facts):
+            """list of (truth, facts) alternatives"""
+            f = field_of(t)
+            if f:
+                known = facts.get(f)
+                out = []
+                if known != "z":
+                    out.append((True, dict(facts, **{f: "nz"})))
+                if known != "nz":
+                    out.append((False, dict(facts, **{f: "z"})))
+                return out
+            if isinstance(t, ast.UnaryOp) and isinstance(t.op, ast.Not):
+                return [(None if tr is None else (not tr), fa) for tr, fa in ev(t.operand, facts)]
+            if isinstance(t, ast.BoolOp):
+                alts = [(None, facts)]
+                is_or = isinstance(t.op, ast.Or)
+                for v in t.values:
+                    nxt = []
+                    for tr, fa in alts:
+                        if tr is not None:          # already decided (short circuit)
+                            nxt.append((tr, fa))
+                            continue
+                        for tr2, fa2 in ev(v, fa):
+                            if tr2 is None:
+                                nxt.append((None, fa2))
+                            elif tr2 == is_or:
+                                nxt.append((is_or, fa2))
+                            else:
+                                nxt.append((None, fa2))     # go on to the next operand
+                    alts = nxt
+                # undecided after the last operand: the value of the last operand decided it the other way
+                return [((not is_or) if tr is None else tr, fa) for tr, fa in alts] if all(field_of(v) or isinstance(v, (ast.UnaryOp, ast.BoolOp)) for v in t.values) \
+                    else [(None, facts)]
+            return [(None, facts)]
+        out = []
+        for tr, fa in ev(test, facts):
+            if tr is None:
+                out.append((fa, fa))
+            elif tr:
+                out.append((fa, None))
+            else:
+                out.append((None, fa))
+        return out
 
     def block(self, stmts, env, defcls):
         """yields the DFA of every `return <text>` reachable in *stmts* (followed by nothing: callers pass the rest)"""
@@ -613,8 +686,12 @@ class _Templates:
             env[s.target.id] = None if a is None or b is None else SL.concat(a, b)
             yield from self.block(rest, env, defcls)
         elif isinstance(s, ast.If):
-            yield from self.block(list(s.body) + rest, env, defcls)
-            yield from self.block(list(s.orelse) + rest, env, defcls)
+            # what the test says about the seconds / microseconds of the value: `if value.microsecond:` ...
+            for facts_t, facts_f in self.field_facts(s.test, env.get("$facts") or {}):
+                if facts_t is not None:
+                    yield from self.block(list(s.body) + rest, dict(env, **{"$facts": facts_t}), defcls)
+                if facts_f is not None:
+                    yield from self.block(list(s.orelse) + rest, dict(env, **{"$facts": facts_f}), defcls)
         elif isinstance(s, ast.Return):
             d = self.expr(s.value, env, defcls) if s.value is not None else None
             if d is None:
@@ -650,6 +727,17 @@ def rule_time_lang(repo, res, encoders=("PVLEncoder", "PDSLabelEncoder")):
         R = rd.classes()["date/time"]
         bad = (W - R).witnesses(3)
         res.oblige("TIME-LANG", f"{enc}.encode_time ({defcls}, {len(outs)} return paths): every text it can write is a time for {d}/{g}", ok=not bad)
+        # field widths: hours, minutes and seconds are two digits each, a fraction has at least one digit.  The readers
+        # (strptime) also take one-digit fields, so a text such as 12:30:1 loads -- as another instant than the 12:30:10
+        # it was written for; a writer that can produce it has cut digits off a fixed-width field
+        canon = SL.rx(r"[0-9]{2}:[0-9]{2}(:[0-9]{2}(\.[0-9]+)?)?Z?")
+        short = (W - canon).witnesses(3)
+        res.oblige("TIME-LANG", f"{enc}.encode_time: hours, minutes and seconds are written with two digits each", ok=not short)
+        if short:
+            res.add(Finding("TIME-LANG", f"{enc}.encode_time", "writes a time field with other than two digits",
+                            f"{enc}.encode_time can return texts such as {short}: a time field is not written with its two digits (or "
+                            "a bare decimal point is left), so the text denotes another instant than the value (12:30:1 is read as "
+                            "12:30:01) or is not a time at all", witness=short[0], where=f"pvl/encoder.py:{fn.lineno}"))
         if bad:
             res.add(Finding("TIME-LANG", f"{enc}.encode_time", "writes a time its reader does not accept",
                             f"{enc}.encode_time can return texts such as {bad} that {d}.decode_datetime ({g}) does not accept as a "
